@@ -62,14 +62,32 @@ def parse_filter_dict(filter_dict: Dict[str, Any]) -> List[FilterExpression]:
             op_str_lower = op_str.lower() if isinstance(op_str, str) else op_str
 
             if op_str_lower == "between":
-                # Expand to two conditions: lo <= column <= hi
+                # Expand to two conditions: lo <= column <= hi. Only an ordered
+                # pair is a range: a two-character string would be read as
+                # 'a' <= col <= 'b', a set has no order, a dict yields its keys
+                # and a one-shot iterator worked in one scan API and raised in
+                # the others.
+                if not isinstance(value, (list, tuple)) or len(value) != 2:
+                    raise ValueError(
+                        f"Filter on '{column}': 'between' needs a (low, high) list or tuple, "
+                        f"got {type(value).__name__}"
+                    )
                 lo, hi = value
                 expressions.append(FilterExpression(column, FilterOp.GE, lo))
                 expressions.append(FilterExpression(column, FilterOp.LE, hi))
-            elif op_str_lower in ("is_null", "isnull"):
-                expressions.append(FilterExpression(column, FilterOp.IS_NULL, None))
-            elif op_str_lower in ("is_not_null", "notnull", "isnotnull"):
-                expressions.append(FilterExpression(column, FilterOp.IS_NOT_NULL, None))
+            elif op_str_lower in ("is_null", "isnull", "is_not_null", "notnull", "isnotnull"):
+                if value is not True and value is not None:
+                    # ('is_null', False) reads as "is NOT null" but was answered
+                    # with the NULL rows: the argument was ignored. Refuse it,
+                    # like {'col': None}, rather than answer another question.
+                    raise ValueError(
+                        f"Filter on '{column}': '{op_str}' takes True (or None), got {value!r}; "
+                        f"use 'is_null' / 'is_not_null' to choose the polarity"
+                    )
+                null_op = (
+                    FilterOp.IS_NULL if op_str_lower in ("is_null", "isnull") else FilterOp.IS_NOT_NULL
+                )
+                expressions.append(FilterExpression(column, null_op, None))
             else:
                 op = _parse_op(op_str)
                 if op in (FilterOp.IN, FilterOp.NOT_IN) and not isinstance(
